@@ -13,6 +13,7 @@ ap.add_argument('--repo', default=os.environ.get('VIPCHECK_REPO', '/repo'))
 ap.add_argument('-v', action='store_true')
 ap.add_argument('--patch', action='append', default=[])
 ap.add_argument('--summary')
+ap.add_argument('--refactors', action='store_true', help='apply each behaviour-preserving refactoring under refactors/ and require silence from every check')
 a = ap.parse_args()
 env = dict(os.environ, GOFLAGS='-mod=mod', GOPROXY='off', GOSUMDB='off', GOTOOLCHAIN='local'); env.pop('GOWORK', None)
 muts = json.load(open(os.path.join(here, 'selftest', 'mutants.json')))
@@ -24,7 +25,11 @@ if a.seeded:
         if os.path.exists(mp):
             m = json.load(open(mp))
             muts.append({'name': 'seeded/' + d, 'prop': m['property'], 'patch': os.path.join(sd, d, 'patch.diff'), 'expect': m.get('expect_obligation', '')})
-if a.patch:
+if a.refactors:
+    rd = os.path.join(here, 'refactors')
+    muts = [{'name': 'refactors/' + d, 'prop': a.prop or 'all', 'patch': os.path.join(rd, d, 'patch.diff'), 'expect': ''} for d in sorted(os.listdir(rd)) if os.path.exists(os.path.join(rd, d, 'patch.diff'))]
+    if a.only: muts = [m for m in muts if a.only in m['name']]
+elif a.patch:
     muts = [{'name': pp, 'prop': a.prop or 'all', 'patch': pp, 'expect': ''} for pp in a.patch]
 elif a.prop: muts = [m for m in muts if m['prop'] == a.prop]
 if a.only: muts = [m for m in muts if a.only in m['name']]
@@ -69,9 +74,15 @@ with cf.ThreadPoolExecutor(a.j) as ex:
         res[st] += 1
         if st == 'missed': gaps.append(m['name'])
         tag = {'fired': 'FIRED', 'fired-other': 'FIRED-OTHER', 'missed': 'SENSITIVITY-GAP', 'skipped': 'SKIPPED'}[st]
-        if st != 'fired' or a.v:
+        if a.refactors:
+            tag = {'fired': 'FALSE-ALARM', 'fired-other': 'FALSE-ALARM', 'missed': 'silent', 'skipped': 'SKIPPED'}[st]
+            if st == 'missed': info = ''
+        if st != ('missed' if a.refactors else 'fired') or a.v:
             print('%-16s %s %-40s %s' % (tag, m['prop'], m['name'], info))
-print('sensitivity: applied=%d fired=%d fired-other=%d missed=%d skipped=%d' % (len(muts) - res['skipped'], res['fired'], res['fired-other'], res['missed'], res['skipped']))
+if a.refactors:
+    print('refactorings: applied=%d silent=%d false-alarms=%d skipped=%d' % (len(muts) - res['skipped'], res['missed'], res['fired'] + res['fired-other'], res['skipped']))
+else:
+    print('sensitivity: applied=%d fired=%d fired-other=%d missed=%d skipped=%d' % (len(muts) - res['skipped'], res['fired'], res['fired-other'], res['missed'], res['skipped']))
 res['applied'] = len(muts) - res['skipped']
 res['gaps'] = gaps
 if a.summary:
